@@ -32,7 +32,7 @@
 #ifdef VS_MUT_VRW
 #include VS_MUT_VRW
 #else
-#include "/repo/hdf/src/vrw.c" /* for the static Vtbufsize; the library's vrw.o is then not linked */
+#include "hdf/src/vrw.c" /* resolved through -I<REPO> */ /* for the static Vtbufsize; the library's vrw.o is then not linked */
 #endif
 #ifdef VS_MUT_VSFLD
 #include VS_MUT_VSFLD
